@@ -247,7 +247,7 @@ def run(ctx, chk):
     chk.rule("C05.R5", "XLAT loads AL from DS:[BX+AL]", floor=1)
     chk.rule("C05.R6", "no flag changes except POPF/SAHF", floor=300)
     chk.rule("C05.R7", "no abort site in the data-transfer actions", floor=50)
-    chk.rule("C05.R8", "PUSH/POP with a memory operand load the whole word before they store (operand and stack slot may overlap)", floor=4)
+    chk.rule("C05.R8", "PUSH/POP with a memory operand load the whole word before they store (operand and stack slot may overlap)", floor=2)
 
     # ---- MOV
     for k, p in enumerate(G.productions("mov")):
